@@ -292,11 +292,66 @@ def _variants():
     return o
 
 
+def _loss_modules():
+    """Loss *modules* of the losses namespace (deepali.losses.<Class>): constructor tensors and forward arguments are tracked."""
+    import deepali.losses as LM
+
+    o: Dict[str, Callable] = {}
+    RED = ["mean", "sum", "none"]
+    MODES = [None, "forward", "central", "forward_central_backward", "bspline", "sobel"]
+
+    def norm_arg(c):
+        return c.pick([None, None, True, False, torch.tensor(2.0)])
+
+    for n in ["SSD", "L2ImageLoss", "L1ImageLoss", "HuberImageLoss", "SmoothL1ImageLoss"]:
+        def f(c, n=n):
+            kw = {}
+            if c.pick([False, True]):
+                kw = dict(source=c.img(), target=c.img())
+            m = getattr(LM, n)(norm=norm_arg(c), **kw)
+            return m(*c.img_pair(), c.pick([None, c.mask(), c.maskC()]))
+        o["M." + n] = f
+    o["M.Dice"] = lambda c: LM.Dice()(c.prob(), c.pick([c.prob, c.mask])(), c.pick([None, c.mask()]))
+    o["M.NCC"] = lambda c: LM.NCC()(*c.img_pair(), c.pick([None, c.maskC()]))
+    o["M.LCC"] = lambda c: LM.LCC(kernel_size=c.pick([1, 3, 5]))(*c.img_pair(), c.pick([None, c.mask()]))
+    o["M.SLCC"] = lambda c: LM.SLCC(kernel_size=c.pick([1, 3]))(*c.img_pair(), c.maybe(c.mask), c.maybe(c.mask), c.maybe(c.mask))
+    o["M.MI"] = lambda c: LM.MI(**c.pick([dict(num_bins=8), dict(bins=8, vmin=-1.0, vmax=1.0), dict(num_bins=8, num_samples=16), dict(num_bins=8, sample_ratio=0.5), dict(bins=16, sample=0.5)]))(*c.img1_pair(), c.pick([None, c.mask()]))
+    o["M.NMI"] = lambda c: LM.NMI(**c.pick([dict(num_bins=8), dict(bins=8, vmin=-1.0, vmax=1.0), dict(num_bins=8, num_samples=16)]))(*c.img1_pair(), c.pick([None, c.mask()]))
+    o["M.PatchwiseImageLoss"] = lambda c: LM.PatchwiseImageLoss(c.patches(), loss_fn=c.pick([LM.SSD(), LM.NCC(), LM.LCC(kernel_size=3)]))(*c.img_pair(), c.pick([None, c.mask()]))
+    for n in ["BE", "Curvature", "Diffusion", "Divergence", "TotalVariation"]:
+        o["M." + n] = (lambda c, n=n: getattr(LM, n)(mode=c.pick(MODES), sigma=c.pick([None, 0.8]), spacing=c.pick([None, 1.0, 2.0]), stride=c.pick([None, 1]), reduction=c.pick(RED))(c.flow()))
+    o["M.Elasticity"] = lambda c: LM.Elasticity(**c.pick([dict(first_parameter=1.0, second_parameter=0.5), dict(poissons_ratio=0.3, youngs_modulus=2.0), dict()]), mode=c.pick(MODES), reduction=c.pick(RED))(c.flow())
+    o["M.BSplineBending"] = lambda c: LM.BSplineBending(stride=c.pick([1, 2]), reduction=c.pick(RED))(c.flow())
+    for n in ["L1Norm", "L2Norm", "Sparsity"]:
+        o["M." + n] = (lambda c, n=n: getattr(LM, n)()(c.pick([c.flow, c.mat, lambda: c.vec(5)])()))
+    o["M.ClosestPointDistance"] = lambda c: LM.ClosestPointDistance(scale=c.pick([10, 1.0]), split_size=c.pick([100000, 3]))(c.pts(), *[c.pts() for _ in range(c.pick([1, 2]))])
+    o["M.LandmarkPointDistance"] = lambda c: LM.LandmarkPointDistance(scale=c.pick([10, 1.0]))(c.pts(), *[c.pts() for _ in range(c.pick([1, 2]))])
+    return o
+
+
+def loss_classes_unmodelled() -> list:
+    import deepali.losses as LM
+    from torch.nn import Module
+
+    have = {k[2:] for k in REGISTRY if k.startswith("M.")}
+    abstract = {"BSplineLoss", "DisplacementLoss", "NormalizedPairwiseImageLoss", "PairwiseImageLoss", "ParamsLoss", "PointSetDistance", "RegistrationLoss"}
+    out, seen = [], set()
+    for n in LM.__all__:
+        c = getattr(LM, n, None)
+        if inspect.isclass(c) and issubclass(c, Module) and c not in seen:
+            seen.add(c)
+            names = {m for m in LM.__all__ if getattr(LM, m, None) is c}
+            if not (names & have) and not (names & abstract):
+                out.append(n)
+    return sorted(out)
+
+
 REGISTRY: Dict[str, Callable] = {}
 REGISTRY.update(_core())
 REGISTRY.update(_flow_losses())
 REGISTRY.update(_pair_losses())
 REGISTRY.update(_variants())
+REGISTRY.update(_loss_modules())
 
 # functions that take no tensor argument (pure constructors / scalars): nothing to mutate
 NO_TENSOR_ARGS = {
